@@ -256,6 +256,29 @@ def long_optimality(ctx):
     ctx.sample("gcv", {"long_family": names[:6], "lengths": [50, 120, 200]})
 
 
+def _robust_level_task(task, p):
+    """The robust weights come from the residuals of the VALID cells: whatever stands in for a missing cell inside the
+    kernel has no residual.  Observable without re-implementing the reweighting: shifting the level of the data (and
+    of the marker) by a constant changes no residual, so the band moves by exactly that constant - on every word with
+    gaps, for both robust kernels (ties of the criterion are decided by the C06 machinery)."""
+    from . import c06
+    n, lo, hi = task
+    letters = wc.letters_for(0)           # robust variants: seed-independent alphabet (see C06)
+    idx, _ = wc.words(n)
+    idx = idx[lo:hi]
+    valid = idx != 0
+    keep = (~valid).any(axis=1) & (valid.sum(axis=1) >= 5)
+    idx, valid = idx[keep], valid[keep]
+    if not len(idx):
+        return
+    nd = -3000.0
+    yA = wc.render(idx, letters, nd)
+    for variant, params in (("ws2dwcv", dict(srange="a", robust=True)), ("ws2dwcvp", dict(srange="a", robust=True, p=0.8))):
+        for c in (-7000, 500):
+            c06.compare(variant, params, yA, nd, yA + c, nd + c, lambda o, c=c: o - c, valid, f"level shift {c}", p, "robust_level_shift")
+    p.count("robust_level_shift", nontrivial=len(idx))
+
+
 def run(ctx):
     wc.compile_all()
     letters = wc.letters_for(ctx.seed)
@@ -278,6 +301,7 @@ def run(ctx):
     ctx.note("sranges", [[float(s[0]), float(s[-1]), len(s)] for s in sranges(thorough)])
     accessor(ctx, letters)
     long_optimality(ctx)
+    ctx.pmap(_robust_level_task, [(n, lo, min(4 ** n, lo + 2048)) for n in (6, 7) for lo in range(0, 4 ** n, 2048)])
     from . import spell_common
     spell_common.run(ctx, "C05")
 
